@@ -20,7 +20,7 @@ import tempfile
 import time
 
 VERIF = os.path.dirname(os.path.dirname(os.path.abspath(__file__)))
-SIM = os.path.join(VERIF, "sim")
+SIM = os.environ.get("VERIF_SELFTEST_SIM") or os.path.join(VERIF, "sim")
 # The self-test runs the same driver against a scratch copy of the repository: it then
 # overrides the binary and the output directories, and nothing under /verif or /repo
 # is touched. Registered checks never set these.
